@@ -256,3 +256,147 @@ def r05h(R):
             'the instruction fetch is not guarded by pc < len(program) '
             '(strictly): after the last instruction the loop indexes past the '
             'end and every run ends in an internal fault')
+
+
+@rule('R01.j', ('C01',), 'the clock measures delays from its start time and '
+      'accumulates them in the cue time', floor=4,
+      decides='a delay of t seconds lets t seconds pass before the next '
+              'command, measured from the previous cue')
+def r01j(R):
+    A = R.A
+    ck = A.cls(CLOCK, 'Clock')
+    time_src = ('time.time', 'now', 'clock.now', 'time.monotonic')
+
+    def is_now(e):
+        return isinstance(e, ast.Call) and (
+            norm(e.func) in time_src or any(
+                x.split('.')[-1] in ('now', 'time') for x in A.callee_names(et, e)))
+    # elapsed time = now - start
+    et = ck.methods['et']
+    rets = [n for n in walk_own(et.node) if isinstance(n, ast.Return) and n.value is not None]
+    ok = len(rets) == 1 and isinstance(rets[0].value, ast.BinOp) \
+        and isinstance(rets[0].value.op, ast.Sub) and is_now(rets[0].value.left) \
+        and self_attr(rets[0].value.right) == '_start_time'
+    R.check(et, 'et() = now - start time', ok,
+            'the elapsed time is not "now minus the start time": every delay '
+            'is measured wrongly')
+    # reset: cue back to zero, start = now
+    rs = ck.methods['reset']
+    cue0 = start_now = False
+    for n in walk_own(rs.node):
+        if isinstance(n, ast.Assign):
+            for t in n.targets:
+                if self_attr(t) == '_cue_time' and A.try_fold(n.value, rs) == 0:
+                    cue0 = True
+                if self_attr(t) == '_start_time' and isinstance(n.value, ast.Call) \
+                        and (norm(n.value.func) in time_src or any(
+                            x.split('.')[-1] in ('now', 'time')
+                            for x in A.callee_names(rs, n.value))):
+                    start_now = True
+    R.check(rs, 'reset(): cue time = 0', cue0,
+            'reset() does not put the cue time back to zero: after a time-of-'
+            'day wait (or at the start of a run) the first delay is too long')
+    R.check(rs, 'reset(): start time = now', start_now,
+            'reset() does not re-base the start time: elapsed time keeps '
+            'counting from the previous run, delays return at once')
+    # pause_for: cue += delay, then wait while elapsed < cue
+    pf = ck.methods['pause_for']
+    cfg = A.cfg(pf)
+    delay = pf.params[1]
+    adds = [n for n in cfg.nodes if n.kind == 'stmt' and (
+        (isinstance(n.ast, ast.AugAssign) and isinstance(n.ast.op, ast.Add)
+         and self_attr(n.ast.target) == '_cue_time' and norm(n.ast.value) == delay)
+        or (isinstance(n.ast, ast.Assign) and self_attr(n.ast.targets[0]) == '_cue_time'
+            and isinstance(n.ast.value, ast.BinOp) and isinstance(n.ast.value.op, ast.Add)
+            and sorted((norm(n.ast.value.left), norm(n.ast.value.right)))
+            == sorted(('self._cue_time', delay))))]
+    tests = []
+    for n in cfg.nodes:
+        if n.kind == 'cond' and isinstance(n.ast, ast.Compare) and len(n.ast.ops) == 1:
+            l, r, op = n.ast.left, n.ast.comparators[0], n.ast.ops[0]
+            l_et = isinstance(l, ast.Call) and 'Clock.et' in A.callee_names(pf, l)
+            r_et = isinstance(r, ast.Call) and 'Clock.et' in A.callee_names(pf, r)
+            if l_et and self_attr(r) == '_cue_time' and isinstance(op, (ast.Lt, ast.LtE)):
+                tests.append((n, True))      # true edge = keep waiting
+            elif r_et and self_attr(l) == '_cue_time' and isinstance(op, (ast.Gt, ast.GtE)):
+                tests.append((n, True))
+            elif l_et and self_attr(r) == '_cue_time' and isinstance(op, (ast.Gt, ast.GtE)):
+                tests.append((n, False))
+            elif r_et and self_attr(l) == '_cue_time' and isinstance(op, (ast.Lt, ast.LtE)):
+                tests.append((n, False))
+    waits = A.calls_nodes(pf, 'Clock.wait')
+    ok = len(adds) == 1 and len(tests) == 1 and bool(waits)
+    if ok:
+        t, keep = tests[0]
+        # the cue is advanced before the first comparison
+        ok = cfg.find_path([cfg.entry], lambda n: n is t, avoid=adds) is None
+        # waiting happens on the "elapsed < cue" edge only
+        ok = ok and all(w.id not in reachable_without_edges(
+            cfg, cfg.entry, {(t.id, keep)}) for w in waits)
+    R.check(pf, 'pause_for: cue += delay; wait while et() < cue', ok,
+            'pause_for does not advance the cue time by the delay and then '
+            'wait while the elapsed time is below it: delays are skipped or '
+            'never end')
+
+
+# ------------------------------------------------- argument order (generic)
+def _swapped_args(A, modules):
+    """[(func, call, text)]: a positional argument that is a plain name equal
+    to the name of ANOTHER parameter of the (uniquely resolved) callee, while
+    that other parameter's position holds a name that is a parameter too: the
+    two were exchanged."""
+    out, n_calls = [], 0
+    for mod in modules:
+        for f in A.repo.all_functions(mod):
+            for c in A.calls_in(f):
+                if c.keywords or any(isinstance(a, ast.Starred) for a in c.args):
+                    continue
+                callees = A.callees(f, c)
+                if len(callees) != 1:
+                    continue
+                g = callees[0]
+                params = list(g.params)
+                if g.cls is not None and not g.is_static and params:
+                    params = params[1:]
+                if g.name == '__init__' and params and params[0] == 'self':
+                    params = params[1:]
+                if len(params) < 2 or len(c.args) > len(params):
+                    continue
+                n_calls += 1
+                names = [a.id if isinstance(a, ast.Name) else None for a in c.args]
+                for i, nm in enumerate(names):
+                    if nm is None or nm == params[i] or nm not in params:
+                        continue
+                    j = params.index(nm)
+                    if j < len(names) and names[j] == params[i]:
+                        out.append((f, c, '%s(%s): `%s` and `%s` are exchanged '
+                                    '(parameters are %s)' % (
+                                        g.short, ', '.join(x or '...' for x in names),
+                                        nm, params[i], ', '.join(params))))
+                        break
+    return out, n_calls
+
+
+def _swap_rule(rid, props, modules, what, floor):
+    @rule(rid, props, 'arguments are passed in the order of the parameters '
+          'they are named after (%s)' % what, floor=1,
+          decides='values reach the parameter they are meant for')
+    def _r(R):
+        A = R.A
+        bad, n = _swapped_args(A, modules)
+        if n < floor:
+            raise AnalysisError('%s: only %d resolved calls examined' % (rid, n))
+        anchor = next(iter(A.repo.all_functions(modules[0])))
+        R.ok(anchor, 'resolved calls with >= 2 parameters examined: %d' % n)
+        for f, c, text in bad:
+            R.fail(f, c, 'the arguments of this call are in the wrong order: '
+                   + text, line=c.lineno)
+    return _r
+
+
+_swap_rule('R06.k', ('C06', 'C04'), ('bardolph.parser',), 'compiler', 60)
+_swap_rule('R11.i', ('C11',), ('bardolph.lib.time_pattern',), 'time patterns', 1)
+_swap_rule('R01.k', ('C01', 'C12'), ('bardolph.vm', 'bardolph.controller'),
+           'VM and controller', 40)
+_swap_rule('R20.g', ('C20', 'C08'), ('web', 'bardolph.lib.job_control'),
+           'web tier and job control', 10)
